@@ -95,6 +95,8 @@ def handleNodeExpand (op : String) (j : Json) : Option (Except String Json) :=
     | none => return exJ (fun lp => strArr lp.dump) (kfdNodeLP inp)
     | some ws =>
       let ok ← jNat j "original_k"
+      -- the caller's `k` is validated before it is replaced by the number of given weights
+      if ok = 0 then return raises "k"
       return exJ (fun fi => strArr (kfdGivenLP fi ws ok).dump)
         (kfdNodeInternal { inp with k := ws.length, allowEmpty := true })
   | _ => none
